@@ -170,3 +170,28 @@ func VP_EAN() {
 		}
 	}
 }
+
+
+// C15 / C16: purity (deterministic, history-free, no package-level writes)
+func VP_PURE() {
+	n := vpConfig("n")
+	content := vpString("c", n)
+	for i := 0; i < n; i++ {
+		vpAssume(content[i] >= '0' && content[i] <= '9')
+	}
+	vpTrackGlobals()
+	a, errA := Encode(content)
+	_, _ = Encode("5901234123457")
+	b, errB := Encode(content)
+	vpAssert((errA == nil) == (errB == nil), "the same call succeeds or fails the same way every time ")
+	if errA == nil && errB == nil {
+		vpAssert(a.Bounds() == b.Bounds() && a.Content() == b.Content(), "the same call returns the same barcode whatever was encoded before")
+		if a.Bounds() == b.Bounds() {
+			for x := 0; x < a.Bounds().Dx(); x++ {
+				vpAssert(a.At(x, 0) == b.At(x, 0), "the same call returns the same pixels whatever was encoded before")
+			}
+		}
+	}
+	vpAssert(vpGlobalWrites() == 0, "no package-level state is written")
+	vpCover("reached", true)
+}
